@@ -618,7 +618,7 @@ def c03_r5(ctx):
     sh = Shaper(repo)
     gv = repo.func("client_generators.client:ClientGenerator.get_variable_names")
     # locals obtained through variable_names[...] are renamed on clash
-    o = [x for x in Interp(gv, lambda e: None).run() if any("loop body once" in t for t in x.trace)]
+    o = [x for x in Interp(gv, lambda e: None).run() if x.kind == "return"]
     mapped = o[0].env.get("mapped_variable_names") if o else None
     mapped_names = [norm(x) for x in mapped.elts] if isinstance(mapped, ast.List) else []
     ci = repo.cls("client_generators.client:ClientGenerator")
@@ -627,7 +627,18 @@ def c03_r5(ctx):
         if isinstance(st, ast.Assign) and isinstance(st.value, ast.Constant) and isinstance(st.targets[0], ast.Attribute):
             init_consts["self." + st.targets[0].attr] = st.value.value
     mapped_vals = {init_consts.get(m) for m in mapped_names}
-    good = bool(o) and any("f'_{" in norm(m) and "in argument_names" in norm(m) for x in o for m in [x.env.get("<mut:variable_names>") or ast.Constant(0)])
+    # the mapping itself, in loop form (decided per clash scenario) or as a dict comprehension
+    def clash_atom(clash):
+        return lambda e: (clash if norm(strip_pre(e)).endswith(" in argument_names") else None)
+    good = bool(o)
+    comp = [n for n in ast.walk(gv.node) if isinstance(n, ast.DictComp)]
+    if comp:
+        c = comp[0]
+        t = norm(c.key)
+        good = good and len(comp) == 1 and len(c.generators) == 1 and norm(c.generators[0].target) == t and not c.generators[0].ifs and norm(c.generators[0].iter) == "mapped_variable_names" \
+            and isinstance(c.value, ast.IfExp) and norm(c.value.test) == f"{t} in argument_names" and norm(c.value.body) == f"f'_{{{t}}}'" and norm(c.value.orelse) == t
+    else:
+        good = False  # the accumulation loop is brought into comprehension form by the loader; anything else is not the mapping
     ctx.check(good and len(mapped_vals) >= 4, key(gv, "rename"), "template locals are not renamed when an argument has the same name", gv.loc(), okmsg=f"template locals {sorted(v for v in mapped_vals if v)} renamed on clash")
     an = o[0].env.get("argument_names") if o else None
     p0 = gv.node.args.args[1].arg if len(gv.node.args.args) > 1 else "?"
